@@ -174,8 +174,9 @@ func helloFlood(r *vh.Runner, c *vh.Case, f int) {
 }
 
 const (
-	ackKemOff    = transport.HeaderLen
-	ackCookieOff = transport.HeaderLen + transport.KemKeyLen
+	// ClientAck = header | DH ephemeral | KEM ephemeral | cookie | SNI | MAC
+	ackKemOff    = transport.HeaderLen + transport.DHLen
+	ackCookieOff = ackKemOff + transport.KemKeyLen
 	ackCookieEnd = ackCookieOff + transport.PQCookieLen
 )
 
